@@ -236,6 +236,50 @@ def strip_steps(r):
     return r, 0
 
 
+class DistinctSet:
+    """Set of 8-byte digests with bounded memory: exact up to `cap` elements, beyond that an adaptive sample (only digests
+    whose value is a multiple of 2^level are kept; the size is estimated as len * 2^level, standard error ~ 1/sqrt(cap))."""
+    def __init__(self, cap=3000000):
+        self.cap = cap
+        self.level = 0
+        self.s = set()
+
+    def _keep(self, d):
+        return self.level == 0 or (int.from_bytes(d[:8], "little") & ((1 << self.level) - 1)) == 0
+
+    def add(self, d):
+        if self._keep(d):
+            self.s.add(d)
+            if len(self.s) > self.cap:
+                self._shrink()
+
+    def _shrink(self):
+        while len(self.s) > self.cap:
+            self.level += 1
+            m = (1 << self.level) - 1
+            self.s = {d for d in self.s if (int.from_bytes(d[:8], "little") & m) == 0}
+
+    def update(self, it):
+        if isinstance(it, DistinctSet):
+            # bring both to the coarser level
+            if it.level > self.level:
+                self.level = it.level
+                m = (1 << self.level) - 1
+                self.s = {d for d in self.s if (int.from_bytes(d[:8], "little") & m) == 0}
+            for d in it.s:
+                self.add(d)
+            return
+        for d in it:
+            self.add(d if isinstance(d, bytes) else bytes(d) if not isinstance(d, str) else d.encode())
+
+    @property
+    def exact(self):
+        return self.level == 0
+
+    def __len__(self):
+        return len(self.s) << self.level
+
+
 # ---------------------------------------------------------------------------
 # Sharded execution
 
@@ -332,7 +376,7 @@ def run_sharded(gen_mod, gen_name, gen_args, exes, seed, nshards=NCPU, wrapper=N
     tasks = [(gen_mod, gen_name, gen_args, s, nshards, seed, exes, wrapper, exe_args, timeout)
              for s in range(nshards)]
     results = pmap(_shard_worker, tasks, min(procs, nshards))
-    merged = {"events": 0, "cases": 0, "classes": {}, "viol": [], "incon": [], "distinct": set(),
+    merged = {"events": 0, "cases": 0, "classes": {}, "viol": [], "incon": [], "distinct": DistinctSet(),
               "samples": [], "steps_max": 0, "per_config": {}, "maxrss_mb": 0}
     for r in results:
         if "fatal" in r:
@@ -423,7 +467,7 @@ class Report:
         self.level = level
         self.t0 = time.time()
         self.events = 0
-        self.distinct = set()
+        self.distinct = DistinctSet()
         self.classes = {}
         self.required = []
         self.viol = []
@@ -481,6 +525,8 @@ class Report:
         cov = {
             "evaluations": int(self.events),
             "distinct_nontrivial": int(len(self.distinct)),
+            "distinct_nontrivial_counting": ("exact" if getattr(self.distinct, "exact", True) else
+                                             "estimated from a 2^-%d sample of request digests" % self.distinct.level),
             "rule": self.rule,
             "samples": self.samples[:6],
             "classes": dict(sorted(self.classes.items())),
